@@ -74,6 +74,12 @@ func H_C08_skip() {
 	// the test source that owns the file
 	vxrt.TestSources(vxrt.Dir()+"/f_test.go", "TestA", "TestAB", "TestC", "Test1")
 
+	// p_test.go: TestP with sub-tests b (no snapshot) and c (one snapshot in p_test.snap)
+	ppath := dir + "/p_test.snap"
+	writeFile(ppath, frame("TestP/c - 1", "pc"))
+	vxrt.TestSources(vxrt.Dir()+"/p_test.go", "TestP")
+	cp := WithConfig(Dir(dir), Filename("p_test"), Update(false))
+
 	// a second test file in the same package whose test always runs, so that the
 	// snapshot directory is visited by Clean
 	vxrt.TestSources(vxrt.Dir()+"/g_test.go", "TestG")
@@ -133,13 +139,17 @@ func H_C08_skip() {
 		if vxrt.Bool("anchor-end") {
 			pattern = pattern + "$"
 		}
+		if vxrt.Bool("second-level") {
+			// a sub-test level: /b, /c or /sub
+			pattern += "/" + []string{"b", "c", "sub"}[vxrt.Choice("second-level-literal", 3)]
+		}
 		vxrt.Flag("test.run", pattern)
 		if vxrt.Param("known_K4", 1) == 1 {
 			// known finding K4: the -run pattern, applied as one unanchored regexp to the
 			// whole entry id "name - n", matches the id of a test that go test did not select
-			for _, tn := range tests {
+			for _, tn := range append(append([]string{}, tests...), "TestP/c") {
 				m, _ := regexp.MatchString(pattern, tn+" - 1")
-				sel := runSelects(pattern, tn) && (tn != "TestA/sub" || runSelects(pattern, "TestA"))
+				sel := runSelects(pattern, tn) && (tn != "TestA/sub" || runSelects(pattern, "TestA")) && (tn != "TestP/c" || runSelects(pattern, "TestP"))
 				vxrt.Assume(vxrt.Not(vxrt.And(m, !sel)))
 			}
 		}
@@ -152,6 +162,11 @@ func H_C08_skip() {
 				continue
 			}
 			t := newT(tn)
+			if tn == "TestC" && vxrt.Bool("selected-test-skips") {
+				// a test that -run selects but that skips itself through the wrapper
+				Skip(t, "why")
+				continue
+			}
 			c.MatchSnapshot(t, bodies[tn])
 			t.end()
 			ran[tn] = true
@@ -159,6 +174,16 @@ func H_C08_skip() {
 		}
 	}
 	anyRan := len(ran) > 0
+	// TestP has two sub-tests; only TestP/c stores a snapshot (in p_test.snap)
+	pRanC := false
+	if mode == 1 && runSelects(pattern, "TestP") {
+		if runSelects(pattern, "TestP/c") {
+			tc := newT("TestP/c")
+			cp.MatchSnapshot(tc, "pc")
+			tc.end()
+			pRanC = true
+		}
+	}
 	if runSelects(pattern, "TestG") {
 		tg := newT("TestG")
 		cg.MatchSnapshot(tg, "g")
@@ -167,6 +192,10 @@ func H_C08_skip() {
 
 	Clean(nil)
 	out := vxrt.Stdout()
+	if mode == 1 && !pRanC {
+		vxrt.Assert(readFile(ppath) == frame("TestP/c - 1", "pc"), "C08:file-of-filtered-out-subtest-kept")
+		vxrt.Assert(!strings.Contains(out, "p_test.snap"), "C08:file-of-filtered-out-subtest-not-listed")
+	}
 	for _, tn := range tests {
 		if ran[tn] {
 			continue
